@@ -43,6 +43,9 @@ Assumed contracts (trusted base), one line each — S = what is Static, T = what
   lx.linear_solve / TaggedLinearOperator / jax.debug.callback   as in theories/context.py; the solve traces the
                                                  operand's mv (trace-safe by its own obligations); result T
   np.ceil / np.log2 / int / float on S numbers   S;  on a Traced value: refused (TracerArrayConversionError)
+  jax.dtypes.canonicalize_dtype(d)               d when 64-bit mode is on (symbolic Bool X64), else the 32-bit counterpart
+                                                 narrow(d) for 64-bit dtypes (is64(d)) and d for the others; dtypes are
+                                                 opaque tokens; numpy.float64 / int64 / uint64 / complex128 are 64-bit
 """
 from __future__ import annotations
 
@@ -55,6 +58,13 @@ from pyvc.theory import Theory
 from pyvc.values import (NOT_IMPLEMENTED, ClassRef, Ext, Obj, Partial, PyFunc, SSeq, Unsupported, Value, concrete,
                          fresh_bool, fresh_int, is_z3, to_z3)
 from theories import pytree as PT
+
+
+X64 = z3.Bool('x64')                      # jax_enable_x64, symbolic
+_DT = z3.DeclareSort('AnyValue')         # same sort as theories.context.AnyS (opaque Python values)
+is64 = z3.Function('is64', _DT, z3.BoolSort())
+narrow = z3.Function('narrow', _DT, _DT)
+NARROW_NAMES = {'float64': 'float32', 'int64': 'int32', 'uint64': 'uint32', 'complex128': 'complex64'}
 
 
 def _meta(interp, note=None, finding=None):
@@ -485,6 +495,19 @@ def install(T: Theory, instrument=True):
     def _cb(interp, f, *a, **k):
         return None
     T.ext_values['lineax.positive_semidefinite_tag'] = Ext('lineax.positive_semidefinite_tag')
+
+    @T.ext('jax.dtypes.canonicalize_dtype')
+    def _canon(interp, d, *a, **k):
+        if isinstance(d, Ext):                      # a concrete dtype object such as numpy.float64
+            name = d.path.rsplit('.', 1)[-1]
+            if name not in NARROW_NAMES:
+                return d
+            if interp.run.branch(X64):
+                return d
+            return Ext(d.path.rsplit('.', 1)[0] + '.' + NARROW_NAMES[name])
+        if is_z3(d) and d.sort() == _DT:
+            return z3.If(X64, d, z3.If(is64(d), narrow(d), d))
+        raise Unsupported(f'canonicalize_dtype of {d!r}')
 
     @T.ext('numpy.ceil')
     def _ceil(interp, v):
